@@ -624,7 +624,7 @@ impl Property for C14 {
         64
     }
     fn cases(&self, tier: Tier) -> u64 {
-        tier.pick(160_000, 800_000)
+        tier.pick(160_000, 3_000_000)
     }
     fn run_tape(&self, tape: &[u8], ctx: &mut Ctx) -> Result<(), Failure> {
         let (api, cfg, lens) = decode(tape, ctx.tier);
